@@ -67,10 +67,11 @@ func round(s *slip.Scope, f slip.Object, args slip.List, depth int) slip.Values 
 	if 1 < len(args) {
 		div = args[1]
 	}
-	num, div = slip.NormalizeNumber(num, div)
+	// Check before the divisor is normalized to the type of the number.
 	if fd, ok := div.(slip.Fixnum); ok && fd == 0 {
 		slip.DivisionByZeroPanic(s, depth, slip.Symbol("round"), args, "divide by zero")
 	}
+	num, div = slip.NormalizeNumber(num, div)
 
 	switch tn := num.(type) {
 	case slip.Fixnum:
